@@ -333,6 +333,10 @@ def check_atheris(case, rec: Rec) -> None:
 REQUIRED_LABELS = {"E": 0.15, "class-a": 0.1, "class-b": 0.1, "class-c": 0.05, "index-clause": 0.1}
 
 
+def sample_view(case):
+    return repr(case_bytes(case)[:1500])
+
+
 def parts(tier):
     from ..engine import load_findings
 
